@@ -249,6 +249,16 @@ func (ex *Exec) verifyFunction(fn *ssa.Function, con *Contract) (rep *FuncReport
 		}
 		top := &State{reach: True()}
 		ex.oblige(fr, top, "ensures", cl.Label, And(parts...), token.NoPos, cl.Text)
+		if a, ok := antecedent(cl.Text); ok && coverClauses && ex.part == 0 {
+			var never []*Term
+			for _, r := range fr.rets {
+				fr.capsOverride = r.caps
+				env := mkEnv(r.st, r.vals)
+				fr.capsOverride = nil
+				never = append(never, Implies(r.st.reach, Not(env.evalBool(a))))
+			}
+			ex.coverCheck(fr, "ensures", cl.Label, And(never...), a)
+		}
 	}
 	ex.valueOrErrorObligation(fr, fn)
 	// reachability guard: some return must be reachable under everything assumed on the way
